@@ -331,6 +331,19 @@ fn base_cases() -> Vec<Case> {
                             source_mode: 0,
                             crowded: false,
                         });
+                        // hit actions with a consistency checker configured (populate supplies the value the hit holds, so
+                        // the comparison accepts): promotion and replacement publish all the same
+                        if auto_sync && !maintain && size == Size::One && !readers.is_empty() && matches!(op, MOp::Ensure | MOp::Gou(_)) {
+                            let held = contents.iter().copied().find(|&c| c != 0).unwrap_or(0);
+                            if held != 0 {
+                                for checker in [1u8, 3] {
+                                    let mut c = out.last().unwrap().clone();
+                                    c.cell.checker = checker;
+                                    c.cell.pop = if matches!(held, 1 | 3) { 1 } else { 2 };
+                                    out.push(c);
+                                }
+                            }
+                        }
                         // maintenance with work to do: the write level full of entries read since their insertion
                         if maintain && size == Size::One {
                             let mut c = out.last().unwrap().clone();
@@ -413,7 +426,7 @@ fn record(case: &Case, rep: &mut Report) {
 pub fn run(_tier: Tier, shard: Shard, rep: &mut Report) {
     rep.rule = "every publishing path (set/put by path and by temp-file object onto absent and present keys, ensure and \
         get_or_update misses, Replace on a primary and on a secondary hit, Promote from plain and sharded read-only levels, key living \
-        in the secondary shard) x writer {plain, sharded} x value size {0 B, 1 B, 3 x 8 KiB} x maintenance {fires, does not, fires on a write level full of entries read since insertion} x \
+        in the secondary shard; the hit actions also with a counting and with the library's byte-equality checker configured) x writer {plain, sharded} x value size {0 B, 1 B, 3 x 8 KiB} x maintenance {fires, does not, fires on a write level full of entries read since insertion} x \
         auto_sync {on, off as a control of the monitor}, the builder obtained by CacheBuilder::new(), by Default::default() and by \
         re-using a builder after take() (auto-sync never mentioned: it must default to on), by-path sources also handed over with \
         mode 0444, 0400, 0644, 0640, 0664, 0666 and 0606; per published inode the trace must show last content event < successful \
